@@ -6,6 +6,12 @@ CHECKS = {
  "C02": dict(engine="E-ENUM", technique="bounded-exhaustive enumeration of zones x questions on the real Zone::resolve against a flat-list reference lookup",
    text="Every zone of a path-shaped scope (3 apexes x SOA/none x depth<=2 (quick) / <=3 (thorough) x 8 node kinds x 3-5 wildcard sets x siblings) is built through the public insertion API and every question (path prefixes +1/+2 labels incl. `*`, 5-11 query types) is resolved by the real code and compared with an independent flat-list RFC 1034 4.3.2 lookup; complete within the stated scope, nothing sampled.",
    note="Trusted: the flat-list reference (refzone.rs, ~150 lines). Scope bounds: two-letter label alphabet, depth<=3; zones with data beneath a delegation point (D1) and NS in wildcard sets (D4) are outside the claim.", ref="6 C02"),
+ "C05": dict(engine="E-SEQ", technique="explicit-state search (stateright BFS/DFS with state de-duplication) over operation histories of the real SharedCache under a virtual clock, every transition judged by a reference map",
+   text="All histories of insert / insert_all / get (by type, ANY) / get_without_checking_expiration / prune / clock advance (0.5 s, 1 s, 3 s; thorough also 0.999 s and TTL 2^32-1) over 2-3 names, 2 types, 2 values, TTL {0,1,3}, cache sizes {1,2,64}, to depth 4 (quick) / 6 (thorough), in two clock disciplines (time moves only on advance; every clock read advances 1 ns), each executed on a fresh real cache and compared step by step with a BTreeMap reference: nothing past its TTL, reported TTL <= remaining life, TTL-0 never stored, re-insert restarts the lifetime without duplicating, live records returned exactly once.",
+   note="Trusted: the reference model in cachemodel.rs and the virtual clock hook (cache.rs reads time only through Instant::now()). D2: records with < 1 s left may be withheld. Evictions are accepted as they happen (judged by C15).", ref="6 C05"),
+ "C15": dict(engine="E-SEQ + E-LOOM", technique="explicit-state search (stateright) over operation histories of the real cache + loom exploration of all lock-acquisition interleavings (preemption-bounded) of thread programs on the real SharedCache",
+   text="Sequential: all histories over 3 names x 2 types, re-inserts with new TTLs, lookups hit/miss/ANY, prunes, clock advances at cache sizes {1,2,3} to depth 5 (quick) / 7 (thorough); after every prune: no expired record left, size <= configured, reported (remaining, expired, evicted) true, whole names evicted, only while over size, never a name certainly used later than a survivor; after every operation the structural invariants and count == distinct entries. Concurrent: loom explores every interleaving within preemption bound 2 (quick) / 3 (thorough) of 4-5 three-thread programs (upsert || insert_all || prune, writers of one name || prune with expired pre-state, writer || readers, two pruners || writer) on the real cache through the mutex hook; invariants, count equality and an exact final prune on every schedule.",
+   note="Trusted: reference in cachemodel.rs; the mutex wrapper hook (every real lock acquisition passes through a loom semaphore); loom's bounded DPOR. 3 model threads, not 8: each cache operation is a single critical section. A watchdog turns an operation that does not return within 20 s into a violation.", ref="6 C15"),
 }
 
 PENDING_REASON = "check not built yet in this round (planned engine in DESIGN.md section 6); no claim is made"
